@@ -8,7 +8,7 @@
 """
 import json, os, re, shutil, subprocess, sys
 out = os.path.abspath(sys.argv[1])
-WT = "/tmp/mw/verify"
+WT = "/tmp/mw/verify" + os.environ.get("DDSV_ALT_SLOT", "")   # a slot allows several confirmations at once
 def sh(cmd, cwd=WT, timeout=3600):
     e = dict(os.environ); e["CARGO_NET_OFFLINE"] = "true"
     p = subprocess.run(cmd, cwd=cwd, env=e, capture_output=True, text=True, timeout=timeout)
